@@ -1,6 +1,6 @@
 (* Extraction of the C03 models. ExtrOcamlBasic only. *)
 Require Extraction.
 Require Import ExtrOcamlBasic.
-From Atlas Require Import Base.Bytes Diff.Schema Sqlite.PlanModel Sqlite.ExportDump Sqlite.ExportFault Sqlite.ExportModel Sqlite.ExportPrint Hcl.SpecModel.
+From Atlas Require Import Base.Bytes Diff.Schema Sqlite.PlanModel Sqlite.ExportDump Sqlite.ExportRealm Sqlite.ExportFault Sqlite.ExportModel Sqlite.ExportPrint Sqlite.ExportPrintIndent Hcl.SpecModel.
 Extraction Language OCaml.
-Extraction "model.ml" recover scan_expr fill_checks hcl_roundtrip print_table print_index idx_exprs expr_last_index dump_creates fault_outcomes.
+Extraction "model.ml" recover scan_expr fill_checks hcl_roundtrip print_table print_table_ind print_index idx_exprs expr_last_index dump_creates dump_script fault_outcomes.
